@@ -186,6 +186,16 @@ def _subst_prefix(x, oren):
     return x
 
 
+def _script(spec):
+    """{"method": [true, false, ...]} -> evaluator script (the last value repeats)"""
+    if not spec:
+        return None
+    out = {}
+    for name, vals in spec.items():
+        out[name] = {"tick": None, "values": [("bool", v) if isinstance(v, bool) else A.ref(v) for v in vals]}
+    return out
+
+
 def _case_value(prog, ent, case_name, case):
     presets = {}
     if isinstance(case, dict) and case.get("preset"):
@@ -196,7 +206,7 @@ def _case_value(prog, ent, case_name, case):
     opaque = list(ent.get("opaque", ()))
     if ent.get("opaque_prefix"):
         opaque += [q for q in A.Evaluator(prog).by_path if q.startswith(ent["opaque_prefix"])]
-    ev = A.Evaluator(prog, presets=presets, type_alias=ent.get("alias", {}), watch=(ent.get("watch", "-"),), opaque=opaque, name_case=name_case, transparent=ent.get("transparent", ("fstr",)), iflet=(case.get("iflet") if isinstance(case, dict) else None) or ent.get("iflet"), absent=(case.get("absent", ()) if isinstance(case, dict) else ()), present=(case.get("present") if isinstance(case, dict) else None))
+    ev = A.Evaluator(prog, presets=presets, type_alias=ent.get("alias", {}), watch=(ent.get("watch", "-"),), opaque=opaque, name_case=name_case, transparent=ent.get("transparent", ("fstr",)), iflet=(case.get("iflet") if isinstance(case, dict) else None) or ent.get("iflet"), absent=(case.get("absent", ()) if isinstance(case, dict) else ()), present=(case.get("present") if isinstance(case, dict) else None), script=_script(ent.get("script")))
     h = ev.by_path.get(ent["function"])
     argv = None
     if isinstance(case, dict) and case.get("args"):
